@@ -1415,6 +1415,7 @@ func (d *DotGit) rewritePackedRefsWithoutRef(name plumbing.ReferenceName) (err e
 
 	s := bufio.NewScanner(pr)
 	found := false
+	dropped := false
 	for s.Scan() {
 		line := s.Text()
 		ref, err := d.processLine(line)
@@ -1424,8 +1425,16 @@ func (d *DotGit) rewritePackedRefsWithoutRef(name plumbing.ReferenceName) (err e
 
 		if ref != nil && ref.Name() == name {
 			found = true
+			dropped = true
 			continue
 		}
+
+		// A "^<id>" line is the peeled value of the reference on
+		// the line before it: it goes away with that reference.
+		if dropped && strings.HasPrefix(line, "^") {
+			continue
+		}
+		dropped = false
 
 		if _, err := fmt.Fprintln(tmp, line); err != nil {
 			return err
